@@ -122,7 +122,8 @@ fn main() {
           FAILING.with(|f| f.borrow_mut().clear());
           for _ in 0..k { let r: u32 = t.num(); FAILING.with(|f| { f.borrow_mut().insert(r); }); }
         }
-        "S" => {
+        tk @ ("S" | "Z") => {
+          let cont = tk == "Z";   // Z: keep using the same Session after a caught abort
           let k: usize = t.num();
           #[derive(Debug)]
           enum Sop { Req(u32), Bu(Vec<u32>) }
@@ -161,7 +162,7 @@ fn main() {
                 Err(e) => {
                   let k = abort_kind(&panic_message(&e));
                   results.push(match sop { Sop::Req(tk) => format!("o q {} -> abort {}", tk, k), Sop::Bu(_) => format!("o b -> abort {}", k) });
-                  break;
+                  if !cont { break; }
                 }
               }
             }
